@@ -104,7 +104,10 @@ class BaseFiles(Generic[Interface]):
         except (ValueError, OverflowError):
             return False
 
-        return int(last_modified) <= int(modified_time)
+        # Only the date this server has sent as Last-Modified revalidates: a
+        # file whose modification time moved backwards (restored from an
+        # archive, clock skew) must not match a newer date.
+        return int(last_modified) == int(modified_time)
 
     def not_modified(
         self, stat_result: os.stat_result, if_none_match: str, if_modified_since: str
@@ -117,7 +120,7 @@ class BaseFiles(Generic[Interface]):
             return self.if_none_match(
                 FileResponseMixin.generate_etag(stat_result), if_none_match
             )
-        return self.if_modified_since(stat_result.st_ctime, if_modified_since)
+        return self.if_modified_since(stat_result.st_mtime, if_modified_since)
 
     def set_response_headers(self, response: BaseResponse) -> None:
         response.headers.append(
